@@ -574,6 +574,9 @@ struct Trip {
     u: Out,
     panics: Vec<String>,
     file: Vec<u8>,
+    /// value probes: (column type, literal, count of rows of t equal to it, the same for u) —
+    /// equality is evaluated by the engine on the stored values, not on their printed form
+    probes: Vec<(String, String, Out, Out)>,
 }
 
 enum Run {
@@ -644,14 +647,43 @@ async fn round_trip(db: &Database, c: &Case, csv: &Path) -> Run {
     }
     let import = if export.is_ok() { exec(db, &from).await } else { Out::Failed("not run".into()) };
     let u = exec(db, &sel).await;
+    let panics = take_panics();
+    // Up to four cells of the types whose printed form could hide a difference (the comparison of
+    // `select` results sees both tables through the same printer): how many rows equal the
+    // literal that was inserted, in t and in u?
+    let mut probes = vec![];
+    if import.is_ok() {
+        let u_has = |i: usize| c.src == 4 || file_cols.contains(&i);
+        'outer: for row in &c.rows {
+            for &i in &file_cols {
+                let tag = ty_tag(&c.cols[i]).to_string();
+                if !matches!(tag.as_str(), "interval" | "timestamp" | "timestamptz" | "date" | "decimal" | "double") || !u_has(i) {
+                    continue;
+                }
+                let lit = &row[i];
+                if lit.eq_ignore_ascii_case("null") || probes.iter().any(|(_, l, _, _): &(String, String, Out, Out)| l == lit) {
+                    continue;
+                }
+                let q = |t: &str| format!("select count(*) from {t} where c{i} = cast({lit} as {})", c.cols[i]);
+                let a = exec(db, &q("t")).await;
+                let b = exec(db, &q("u")).await;
+                probes.push((c.cols[i].clone(), lit.clone(), a, b));
+                if probes.len() >= 4 {
+                    break 'outer;
+                }
+            }
+        }
+        let _ = take_panics();
+    }
     Run::Done(Trip {
         t,
         tys: file_cols.iter().map(|&i| c.cols[i].clone()).collect(),
         export,
         import,
         u,
-        panics: take_panics(),
+        panics,
         file,
+        probes,
     })
 }
 
@@ -793,6 +825,21 @@ fn verdict(c: &Case, tr: &Trip) -> Verdict {
     };
     let (ts, us) = (sorted(tr.t.clone()), sorted(u.clone()));
     if ts == us {
+        // the printed rows agree; do the stored values?
+        for (ty, lit, a, b) in &tr.probes {
+            if let (Out::Rows(ra), Out::Rows(rb)) = (a, b) {
+                if ra != rb {
+                    return fail(
+                        format!("csv:value:{}", ty_tag(ty)),
+                        ctxt(format!(
+                            "both tables print the same rows, but `c = cast({lit} as {ty})` holds for {} row(s) of t and {} row(s) of u: the value changed in a way its printed form does not show",
+                            fmt_rows(ra),
+                            fmt_rows(rb)
+                        )),
+                    );
+                }
+            }
+        }
         return Verdict::Pass;
     }
     // multiset difference
